@@ -170,7 +170,7 @@ def rule_insert(ctx, rep):
         if b.f["crate"] != "ironplc_analyzer":
             continue
         for c in sorted(b.calls(), key=lambda c: (c.loc[0], c.loc[1])):
-            if not (c.callee and c.callee.endswith("HashMap::insert")):
+            if not (c.callee and c.callee.endswith(("HashMap::insert", "BTreeMap::insert"))):
                 continue
             ga = split_top((c.ga or "[]").strip("[]"))
             if len(ga) < 2:
@@ -193,7 +193,7 @@ def rule_insert(ctx, rep):
             used = [kk for _, kk, p in b.place_uses() if p[0] == dl and kk not in ("write", "drop")]
             guarded = False
             for g in panics._cmp_guards(b, c.bb):
-                if g[0] == "call" and g[1].callee in ("std::collections::hash::map::HashMap::contains_key",) and not g[4]:
+                if g[0] == "call" and (g[1].callee or "").endswith(("HashMap::contains_key", "BTreeMap::contains_key")) and not g[4]:
                     guarded = True
             if used or guarded:
                 r.ok(inst, loc_str(b.f, c.loc))
@@ -228,7 +228,7 @@ def rule_drain(ctx, rep):
     # kinds inserted by name
     kinds = []
     for c in b.calls():
-        if c.callee and c.callee.endswith("HashMap::insert"):
+        if c.callee and c.callee.endswith(("HashMap::insert", "BTreeMap::insert")):
             vp = op_place(c.args[2])
             vd = b.single_def(vp[0]) if vp and not vp[1] else None
             if vd and vd[0] == "stmt" and vd[3][0] == "agg":
